@@ -463,7 +463,23 @@ func thoroughSelftest(ctx *Ctx, rule *Rule, p *engine.Prog, rep *engine.Report, 
 		if prop == "" && len(id) >= 3 && strings.HasPrefix(id, "C") {
 			prop = id[:3]
 		}
-		if prop != rule.ID {
+		// meta.json may record which properties' checks report the change (tools: kvcheck matrix)
+		expected := []string{prop}
+		if mb, err := os.ReadFile(filepath.Join(seedDir, id, "meta.json")); err == nil {
+			var meta struct {
+				ReportedBy []string `json:"reported_by"`
+			}
+			if json.Unmarshal(mb, &meta) == nil && meta.ReportedBy != nil {
+				expected = meta.ReportedBy
+			}
+		}
+		mine := false
+		for _, e2 := range expected {
+			if e2 == rule.ID {
+				mine = true
+			}
+		}
+		if !mine {
 			continue
 		}
 		patch := filepath.Join(seedDir, id, "patch.diff")
@@ -611,4 +627,97 @@ func astControl(p *engine.Prog, pkg, name, expect string, match func(n ast.Node,
 		}
 	}
 	return Control{Name: name, Expect: expect, Skip: "no matching construct in " + pkg + " (the control cannot be derived from the current tree)"}
+}
+
+// Matrix replays every committed seeded change against every registered property (child processes,
+// overlays only) and prints, as JSON, which properties report it. Used to maintain "reported_by" in
+// seeded/<id>/meta.json; not part of any verdict.
+func Matrix(args []string) int {
+	repo, verif := "/repo", "/verif"
+	if len(args) > 0 {
+		repo = args[0]
+	}
+	if len(args) > 1 {
+		verif = args[1]
+	}
+	ctx := &Ctx{Repo: repo, Verif: verif, Tier: "quick"}
+	scratch, err := os.MkdirTemp("", "kvcheck-matrix-")
+	if err != nil {
+		fmt.Println(err)
+		return 2
+	}
+	defer os.RemoveAll(scratch)
+	var props []string
+	for id := range Registry {
+		props = append(props, id)
+	}
+	sort.Strings(props)
+	// baseline keys per property
+	base := map[string]map[string]bool{}
+	for _, pr := range props {
+		res := runChild(ctx, pr, nil, scratch, 0)
+		base[pr] = map[string]bool{}
+		for _, k := range res.keys {
+			base[pr][k] = true
+		}
+	}
+	ents, _ := os.ReadDir(filepath.Join(verif, "seeded"))
+	type job struct {
+		id, prop string
+		ov       map[string][]byte
+	}
+	var jobs []job
+	out := map[string]map[string][]string{}
+	for _, e := range ents {
+		patch := filepath.Join(verif, "seeded", e.Name(), "patch.diff")
+		if _, err := os.Stat(patch); err != nil {
+			continue
+		}
+		ov, err := overlayFromPatch(repo, patch, scratch, e.Name())
+		if err != nil {
+			out[e.Name()] = map[string][]string{"_error": {err.Error()}}
+			continue
+		}
+		out[e.Name()] = map[string][]string{}
+		for _, pr := range props {
+			jobs = append(jobs, job{e.Name(), pr, ov})
+		}
+	}
+	var mu sync.Mutex
+	sem := make(chan struct{}, 10)
+	var wg sync.WaitGroup
+	for i := range jobs {
+		wg.Add(1)
+		sem <- struct{}{}
+		go func(i int) {
+			defer wg.Done()
+			defer func() { <-sem }()
+			j := jobs[i]
+			res := runChild(ctx, j.prop, j.ov, scratch, i+1)
+			var rulesHit []string
+			seen := map[string]bool{}
+			for _, k := range res.keys {
+				if base[j.prop][k] {
+					continue
+				}
+				ru := k
+				if c := strings.Index(k, ":"); c > 0 {
+					ru = k[:c]
+				}
+				if !seen[ru] {
+					seen[ru] = true
+					rulesHit = append(rulesHit, ru)
+				}
+			}
+			if len(rulesHit) > 0 {
+				mu.Lock()
+				out[j.id][j.prop] = rulesHit
+				mu.Unlock()
+			}
+		}(i)
+	}
+	wg.Wait()
+	b, _ := json.MarshalIndent(out, "", " ")
+	fmt.Println(string(b))
+	return 0
 }
